@@ -80,3 +80,11 @@ def run(ctx) -> None:
     alone = {str(f[-1]["argv"]) for _, f, _ in run_sequence(I, [b])}
     ctx.check(got == alone and got, "C15.B3.flags-per-instance", "GNUObjdumpDisassembler.__init__", str(sorted(got ^ alone))[:200],
               "a second binary operation gets exactly its own section flags")
+    # B4: the syntax flag is the current rule's (att unless the rule says otherwise), whatever ran before
+    for prev in ({"config": {"style": "intel"}, "file_type": "binary"}, {"config": {"style": "intel"}, "file_type": "assembly"}):
+        nxt = {"config": {}, "file_type": "binary"}
+        got = {str(f[-1]["argv"]).replace("INPUT_1", "INPUT_0") for _, f, _ in run_sequence(I, [prev, nxt])}
+        alone = {str(f[-1]["argv"]) for _, f, _ in run_sequence(I, [nxt])}
+        ctx.check(got == alone and bool(got) and all("'att'" in g for g in got), "C15.B4.style-is-the-rules-own", "JASMConfig._load_assembly_style",
+                  str(sorted(got ^ alone))[:200] or str(sorted(got))[:200],
+                  "a rule without `style` disassembles with -M att even after a rule with `style: intel` in the same process")
